@@ -127,7 +127,7 @@ ForLang(L, base) ==
   ELSE IF Kind = "dec" THEN
     LET nd == Len(Params.fracs) IN
     [x \in 1..(NNum * Params.perint) |-> LET j == (x - 1) \div Params.perint
-                                              d == IF x % 2 = 0 THEN Params.fracs[((x * 7919) % nd) + 1]
+                                              d == IF x % 2 = 0 THEN Params.fracs[(((x % 10007) * 7919 + (x \div 10007)) % nd) + 1]
                                                    ELSE SeqToStr0(DigitStr(Start(Seed, 91, x), 1 + (x % 6)))
                                           IN DecReq(L, base + x, GsOf(L, j), d)]
   ELSE IF Kind = "punct" THEN
